@@ -122,6 +122,9 @@ def step (toks : List String) : Option String :=
       let m ← unhex m; let b ← unhex s; let w ← unhex w
       pure (match readResponse m b with
         | .complete p _ =>
+          -- a chunked message announced below HTTP/1.1 is outside the relay model's domain (net/http's writer
+          -- drops the coding and the trailers there; the model keeps what was read)
+          if isChunked p.msg.te && !(p.msg.major > 1 || (p.msg.major == 1 && p.msg.minor ≥ 1)) then "out-of-model" else
           (match relayResponse m (closing == "1") p with
            | none => "out-of-model"
            | some x =>
